@@ -484,16 +484,11 @@ impl Model {
                 }
                 match cryptography::decrypt(blob, &dispute.compute_txid()) {
                     Err(_) => {
-                        // accepted, charged, nothing stored (an older stored version stays as it was)
+                        // accepted, charged, nothing stored
                         self.stats.invalid_drops += 1;
-                        let had_old = self.appts.contains_key(&key);
-                        if !had_old {
-                            self.users.get_mut(&u).unwrap().forfeited += required as u64;
-                        } else {
-                            // charged the difference while the old row stays: book the difference as forfeited
-                            let uu = self.users.get_mut(&u).unwrap();
-                            uu.forfeited = (uu.forfeited as i64 + diff) as u64;
-                        }
+                        // the last accepted version replaces the stored one: with nothing, and its slots are forfeited
+                        self.appts.remove(&key);
+                        self.users.get_mut(&u).unwrap().forfeited += required as u64;
                         self.touched.push((key, "C01"));
                     }
                     Ok(penalty) => {
